@@ -399,6 +399,12 @@ pub fn get_repeated_file_path_from_diff_line(line: &str) -> Option<String> {
                 return Some(first_path);
             }
         }
+    } else if let Some(path) = line
+        .strip_prefix("diff --cc ")
+        .or_else(|| line.strip_prefix("diff --combined "))
+    {
+        // A combined diff names its one file without prefix.
+        return Some(_parse_file_path(path, false));
     }
     None
 }
